@@ -294,6 +294,25 @@ def boundary_integrals(groups, matrixType):
     return S, N, F, dev
 
 
+def raw_route_dev(groups, matrixType):
+    """The documented second route to the area-weighted normal: Get_weight_pg * Get_normals_e_pg(normalize=False)
+    ("their norm is then the surface jacobian").  Returns (dev, n): dev = max over the Gauss points of
+    |w_pg n_raw - wJ_e_pg n_unit| / max wJ, over the 2D groups and the 1D groups lying in a plane z = const
+    (where the 1D cross product with e_z has the norm of the tangent); n = number of Gauss points compared."""
+    dev, cnt = 0.0, 0
+    for g in groups:
+        if g.dim == 1 and np.ptp(np.asarray(g.coord, float)[:, 2]) != 0.0:
+            continue
+        n = np.asarray(g.Get_normals_e_pg(matrixType), float)
+        raw = np.asarray(g.Get_normals_e_pg(matrixType, normalize=False), float)
+        wJ = np.asarray(g.Get_weightedJacobian_e_pg(matrixType), float)
+        w = np.asarray(g.Get_weight_pg(matrixType), float)
+        d = w[None, :, None] * raw - wJ[..., None] * n
+        dev = max(dev, float(np.abs(d).max()) / float(np.abs(wJ).max()))
+        cnt += wJ.size
+    return dev, cnt
+
+
 def region_orientation(groups, matrixType, regions, Q, t, tol=1e-7):
     """For every exact boundary region (vlib.c09_geom.Region with n_out, before the motion x->Qx+t):
     +1 when all Gauss-point normals of the elements lying in it equal the moved outward normal, -1 when
